@@ -44,7 +44,8 @@ CHECKS = {
         RM + "literal-only expressions in every spelling through the real library; emitted .ui values decoded by expat and compared "
         "with an independent checked-64-bit / IEEE / UTF-16 reference",
         "exploration",
-        "Thousands of constant bindings (one document each) over the foldable operators with values biased to 2^31, 2^32, 2^53, 2^62, "
+        "Thousands of constant bindings (one document each; also constant statement blocks with assignments, element assignments and "
+        "shadowing) over the foldable operators with values biased to 2^31, 2^32, 2^53, 2^62, "
         "2^63-1 in all radix / separator / exponent spellings, strings with escapes, enums, flag unions, string lists, object references; "
         "embedded values must equal the reference, expressions with undefined value must not be embedded.",
         "Not judged: integers outside the range of the bound property type, non-finite doubles, legacy octal.",
@@ -163,7 +164,7 @@ CHECKS = {
         RM + "each generated document (constant-only, dynamic, callbacks, warning-only, single fault) translated in the three modes "
         "by the real library; relational monitor across the three results",
         "exploration",
-        "Checks .ui byte equality across modes, reject-acceptance <=> generate-acceptance with an empty header, omit errors being a subset "
+        "Checks .ui byte equality across modes (documents with and without a warning), reject-acceptance <=> generate-acceptance with an empty header, omit errors being a subset "
         "of generate errors, and header presence in generate mode only; 18 documents bind dynamic expressions to constant-only targets; "
         "on disk, a tree generated with --no-dynamic-binding and then in generate mode must hold the header of a generation into an "
         "empty tree and the same .ui bytes.",
@@ -177,7 +178,9 @@ CHECKS = {
         "Thousands of documents per run: hand-written odd shapes of every construct, valid generated documents, syntax-preserving token "
         "mutations (swap/duplicate/delete/replace tokens with other tokens of the pool), truncations at every token class, and token "
         "soup; each is translated in generate, reject and omit mode; a panic, abort, CPU-budget overrun, or CLI exit status other than "
-        "0/1 is a violation; an accepted document must yield well-formed XML.",
+        "0/1 is a violation; an accepted document must yield well-formed XML. Shards run under an 8 GiB memory budget: a document that, run "
+        "alone, kills the process (abort on a failed allocation, stack overflow) is a process-crash violation; layouts with huge indices "
+        "and per-index attributes are among the odd shapes.",
         "Termination is restated as a CPU budget (10 s per translation; the median is milliseconds). Stack exhaustion by pathological "
         "nesting depth beyond 200 levels is not driven.",
         "DESIGN.md §4 C07",
@@ -213,7 +216,8 @@ CHECKS = {
         "graph search; CPU-time watchdog for termination",
         "exploration",
         "Hundreds to thousands of generated class graphs (chains, multiple inheritance, diamonds, private/protected edges, self loops, cycles, "
-        "dangling and non-class super names) are loaded as type information; is_derived_from, get_property, get_public_method, nested "
+        "dangling and non-class super names) are loaded as type information (directly or through the loader's fix-up pass "
+        "metatype_tweak::apply_all, properties carrying every moc key); is_derived_from, get_property, get_public_method, nested "
         "enum and variant lookups and common_base_class are queried for all subject pairs and pool names and compared with a BFS over the "
         "JSON description; every query must finish within a CPU budget. Members carry types (some unresolvable); a quarter of the graphs "
         "span several modules with same-named distinct classes and modules imported twice, and every name is resolved through the import "
